@@ -20,7 +20,7 @@ func GenSpec(t *rapid.T, defects []Defect) Spec {
 	}
 	s.Op = rapid.SampledFrom(ops).Draw(t, "op")
 	s.Cnr = rapid.IntRange(0, NumContainers-1).Draw(t, "cnr")
-	s.Obj = rapid.IntRange(0, NumObjects).Draw(t, "obj")
+	s.Obj = rapid.IntRange(0, NumObjIndexes-1).Draw(t, "obj")
 	s.Requester = rapid.IntRange(IDOwner, IDOther).Draw(t, "requester")
 	s.Scheme = rapid.SampledFrom([]int{SchemeSHA512, SchemeSHA512, SchemeRFC6979, SchemeWalletConnect, SchemeN3}).Draw(t, "scheme")
 	s.Version = rapid.IntRange(0, len(Versions)-1).Draw(t, "version")
@@ -65,9 +65,18 @@ func GenSpec(t *rapid.T, defects []Defect) Spec {
 	// object headers at request time (header-time eACL evaluation).
 	if (s.Defect == DefNone || s.Defect == DefEACLHeader) && (s.Op == OpGet || s.Op == OpHead) &&
 		rapid.IntRange(0, 3).Draw(t, "focusHeaderTime") == 0 {
-		s.Cnr, s.Requester, s.Late, s.Session, s.Bearer = CnrEACL, IDOther, true, SessionNone, false
+		s.Cnr, s.Requester, s.Session, s.Bearer = CnrEACL, IDOther, SessionNone, false
 		if s.Scheme == SchemeN3 {
 			s.Scheme = SchemeSHA512
+		}
+		if s.Defect == DefNone && rapid.Bool().Draw(t, "focusRemote") {
+			// ... or the object lives on the other container node (proxy path)
+			s.Obj, s.Late, s.Trusted = ObjRemotePlain, false, false
+			if s.TTL < 2 {
+				s.TTL = 2
+			}
+		} else {
+			s.Late = true
 		}
 	}
 	return Normalize(s)
